@@ -285,3 +285,83 @@ def guards(fn, bb):
 
 def params_of(fn, operand):
     return {a[1] for a in fn.origins(operand) if a[0] == "param" and not a[2]}
+
+
+def _is_extreme_call(p, which):
+    return (p.endswith("cmp::" + which) or p.endswith("Ord>::" + which) or p.endswith("::Ord::" + which)
+            or p.endswith("::" + which + "_by_key") and False)
+
+
+def check_selects(fn, defs, A, B, which):
+    """Every definition in `defs` (list of (bb, idx, kind, payload) as in Fn.defs, for the place of
+    interest) must select the `which` ('min'|'max') of the two values with origin sets A and B.
+    Accepted: call to cmp::min/max (or Ord::min/max) on (A,B) in either order; a plain copy of A or B
+    guarded by a comparison of A and B that makes it the extreme (or by A == B).
+    Returns list of problem strings (empty = holds) and the number of extreme-call selections seen."""
+    problems = []
+    n_sel = 0
+    other = "max" if which == "min" else "min"
+    for (bb, idx, kind, payload) in defs:
+        if kind == "call":
+            c = payload
+            if _is_extreme_call(c.p, which) and len(c.args) == 2:
+                x, y = fn.origins(c.args[0]), fn.origins(c.args[1])
+                if (x == A and y == B) or (x == B and y == A):
+                    n_sel += 1
+                    continue
+                problems.append(f"{which} taken over unexpected operands at bb{bb}")
+                continue
+            if _is_extreme_call(c.p, other):
+                problems.append(f"selects {other} instead of {which} (call {c.p} at line {c.line})")
+                continue
+            problems.append(f"value produced by call {c.p} at line {c.line}, not a {which} of the two ids")
+            continue
+        rv = payload
+        if rv[0] == "use":
+            src = fn.origins(rv[1])
+            # min/max call reached through a copy
+            calls = [a for a in src if a[0] == "call"]
+            if calls and all(_is_extreme_call(a[1], which) for a in src if a[0] == "call") and len(calls) == len(src):
+                okc = True
+                for a in calls:
+                    c = fn.call_at(a[2])
+                    x, y = fn.origins(c.args[0]), fn.origins(c.args[1])
+                    if not ((x == A and y == B) or (x == B and y == A)):
+                        okc = False
+                if okc:
+                    n_sel += 1
+                    continue
+            if any(a[0] == "call" and _is_extreme_call(a[1], other) for a in src):
+                problems.append(f"selects {other} instead of {which} at bb{bb}")
+                continue
+            if src == A or src == B:
+                sel_a = src == A
+                good = False
+                for g in guards(fn, bb):
+                    if "rel" not in g:
+                        continue
+                    ga, gb = fn.origins(g["a"]), fn.origins(g["b"])
+                    rel = g["rel"]
+                    if ga == B and gb == A:
+                        ga, gb = gb, ga
+                        rel = {"Lt": "Gt", "Le": "Ge", "Gt": "Lt", "Ge": "Le"}.get(rel, rel)
+                    if not (ga == A and gb == B):
+                        continue
+                    if rel == "Eq":
+                        good = True
+                    elif which == "min" and ((rel in ("Lt", "Le") and sel_a) or (rel in ("Gt", "Ge") and not sel_a)):
+                        good = True
+                        n_sel += 1
+                    elif which == "max" and ((rel in ("Gt", "Ge") and sel_a) or (rel in ("Lt", "Le") and not sel_a)):
+                        good = True
+                        n_sel += 1
+                if good:
+                    continue
+                problems.append(f"returns one of the two ids at bb{bb} without a comparison that makes it the {which}")
+                continue
+        problems.append(f"value at bb{bb} is neither a {which} of the two ids nor one of them under equality")
+    return problems, n_sel
+
+
+def whole_defs(fn, local):
+    return [(bb, idx, kind, payload) for (bb, idx, dproj, kind, payload) in fn.defs.get(local, []) if not dproj]
